@@ -343,6 +343,7 @@ class Ctx:
                 i = len(conn.items)
                 T = conn.timeout_for(i)
                 t0 = world.now
+                c0 = world.creep_iterations
                 if conn.handler_end is not None:
                     self.flag("request-after-close", f"{conn.label}: handler generator {kind!r} is asked for a request after the handler ended the connection {conn.handler_end}", conn=conn)
                 try:
@@ -357,7 +358,7 @@ class Ctx:
                     conn.ntimeouts += 1
                     world.log("tmo", conn.label, i)
                     world.probe("timeout_thrown")
-                    self.check_timeout(conn, i, t0, T)
+                    self.check_timeout(conn, i, t0, T, world.creep_iterations - c0)
                     mode = conn.plan["tmo_mode"]
                     if mode == 0:
                         continue
@@ -438,7 +439,7 @@ class Ctx:
             rec.active = False
             world.log("genfin", conn.label, kind)
 
-    def check_timeout(self, conn: Conn, i: int, t0: float, T: float | None) -> None:
+    def check_timeout(self, conn: Conn, i: int, t0: float, T: float | None, crept: int = 0) -> None:
         world = self.world
         if T is None:
             self.flag("timeout-unjustified", f"{conn.label}: TimeoutError thrown into the handler although it yielded None", conn=conn)
@@ -458,6 +459,11 @@ class Ctx:
             world.probe("timeout_zero_poll")
             if tv + slack < t0:
                 world.probe("timeout_zero_poll_while_request_visible")
+            return
+        if crept * World.CREEP >= T:
+            # the whole wait was virtual CPU time (DESIGN 2.1 creep: the receiver needed more zero-wait loop iterations
+            # to pull the bytes through than the timeout lasts): a time comparison means nothing here
+            world.probe("timeout_within_creep")
             return
         if tv == t0 + T:
             world.probe("timeout_exact_tie")
